@@ -402,6 +402,52 @@ static void c13d_case(const w_case *c)
 	}
 }
 
+/* big headers (wav_common.h): decode from an exactly-sized guard-paged buffer, re-encode into one, compare */
+static void c13d_big(const w_bigcase *c)
+{
+	char ct[200], key[300];
+	w_big_setup();
+	uint64_t t = w_big_build(c, w_big_img);
+	uint8_t *p = w_big_in_end - t;
+	memcpy(p, w_big_img, t);
+	int ret = 0, eret = 0;
+	char *rp = w_big_replay(c);
+	snprintf(ct, sizeof(ct), "big-header|fmt-extension=%u", c->ext);	/* coarse: the workers see different cb/af/fact/trail first */
+	W_COUNT("evaluations", 1); W_COUNT("big_headers", 1);
+	memset(w_wh, 0xa5, sizeof(*w_wh));
+	if (VX_TRY) { ret = rf_wavheader_decode(p, (unsigned)t, w_wh); VX_END; }
+	else { VX_END; W_COUNT("decode_faults_left_to_C14", 1); free(rp); return; }
+	if (!(ret >= 0 && (uint64_t)ret <= t)) { W_COUNT("not_accepted", 1); W_COUNT("big_headers_not_accepted", 1); free(rp); return; }
+	W_COUNT("accepted_and_reencoded", 1); W_COUNT("big_headers_accepted", 1);
+	if (!w_silent && !replaying) {
+		vx_hasher h; vx_h_init(&h); vx_h_u64(&h, 0xb16); vx_h_u64(&h, c->ext); vx_h_u64(&h, c->cb); vx_h_u64(&h, c->af); vx_h_u64(&h, (uint64_t)(c->fact * 4 + c->trail));
+		if (vx_set_add(&seen_inputs, vx_h_done(&h))) vx_count("distinct", 1);
+	}
+	w_ref ref; w_ref_parse(w_big_img, t, &ref);
+	for (uint64_t i = ref.skip_off; i < ref.skip_off + ref.skip_len && i < (uint64_t)ret; i++) w_big_img[i] = 0;	/* the bytes to reproduce */
+	uint8_t *q = w_big_out_end - ret;
+	memset(q, 0xee, (size_t)ret);
+	if (VX_TRY) { eret = rf_wavheader_encode(w_wh, q, (unsigned)ret); VX_END; }
+	else {
+		VX_END;
+		snprintf(key, sizeof(key), "reencode-fault|%s", vx_fault_msg);
+		w_report(key, ct, rp, "rf_wavheader_encode faults (%s) on the structure decoded from a %llu-byte header with a %u-byte fmt extension", vx_fault_msg, (unsigned long long)t, c->ext);
+		free(rp); return;
+	}
+	if (!w_silent && !replaying && vx_want_sample() && c->ext >= 65536 && c->cb == 0 && c->af == 0xfffe && !c->trail)
+		vx_sample("%s cb=%u af=%u fact=%d: %llu bytes, decode = %d, re-encode into %d bytes = %d, %llu ignored extension bytes normalised", ct, c->cb, c->af, c->fact, (unsigned long long)t, ret, ret, eret,
+			  (unsigned long long)ref.skip_len);
+	if (eret != ret)
+		w_report("reencode-length", ct, rp, "decode(%llu bytes) = %d but re-encoding the decoded structure into %d bytes returns %d (fmt extension of %u bytes)",
+			 (unsigned long long)t, ret, ret, eret, c->ext);
+	else if (memcmp(q, w_big_img, (size_t)ret)) {
+		int d = 0; while (q[d] == w_big_img[d]) d++;
+		w_report("reencode-bytes", ct, rp, "decode(%llu bytes) = %d, but re-encoding into %d bytes differs from the input at offset %d (0x%02x, input 0x%02x; 0xee = never written); fmt extension of %u bytes",
+			 (unsigned long long)t, ret, ret, d, q[d], w_big_img[d], c->ext);
+	}
+	free(rp);
+}
+
 int main(int argc, char **argv)
 {
 	vx_init(argc, argv);
@@ -413,8 +459,9 @@ int main(int argc, char **argv)
 	maxdev = vx_thorough() ? 3 : 2;
 	char *rp = vx_read_replay();
 	if (rp) {
-		w_case c;
+		w_case c; w_bigcase bc;
 		replaying = 1;
+		if (!w_big_parse(rp, &bc)) { c13d_big(&bc); vx_finish(); return 0; }
 		if (w_case_parse(rp, &c)) { fprintf(stderr, "c13: malformed replay file\n"); return 3; }
 		c13d_case(&c);
 		vx_finish();
@@ -428,6 +475,12 @@ int main(int argc, char **argv)
 	int done_dev = -1, done_len = -1;
 	for (int l = 0; l <= slen && !w_stop; l++) { w_enum_strings(l, c13d_case, 1); if (!w_stop) done_len = l; }
 	for (int d = 0; d <= maxdev && !w_stop; d++) { w_enum_headers(d, c13d_case, 1); if (!w_stop) done_dev = d; }
+	for (int i = 0; i < W_NBIG && !w_stop; i++) {
+		w_bigcase bc;
+		if (!vx_mine((uint64_t)i)) continue;
+		w_big_get(i, &bc); c13d_big(&bc);
+		if (vx_deadline_passed()) w_stop = 1;
+	}
 	vx_and("exhaustive", !w_stop);
 	vx_min("decode_first_string_length_bound_completed", (uint64_t)(done_len < 0 ? 0 : done_len));
 	vx_min("decode_first_deviation_bound_completed", (uint64_t)(done_dev < 0 ? 0 : done_dev));
